@@ -99,7 +99,9 @@ package lang
 // (`||` and it is zero) or (the previous one was skipped and i is joined by `&&`/`||`).
 //@ spec $skipN(prevSkip bool, and bool, or bool, prevExit int) bool = (and && prevExit != 0) || (or && prevExit == 0) || (prevSkip && (and || or))
 
-//@ func runModeNormal [C04 C19]
+//@ func runModeNormal [C04 C19 C28]
+// (C28) a command skipped by the scheduler gives back its OWN id
+//@   at call (*funcID).Deregister#* assert arg1 == (*procs)[i].Id
 //@   requires procs != nil
 //@   ensures imp(len(old(*procs)) == 0, result == 1)
 //@   ensures imp(len(*procs) > 0, result == (*procs)[len(*procs)-1].ExitNum)
@@ -134,7 +136,9 @@ package lang
 //  T4 the scan moves forward.
 // A failure whose successor is not a `||` alternative ends the block: that path returns and is
 // covered by the postcondition (the exit number returned is the failing one).
-//@ func runModeTryPipe [C05 C19]
+//@ func runModeTryPipe [C05 C19 C28]
+// (C28) a command skipped by the scheduler gives back its OWN id
+//@   at call (*funcID).Deregister#* assert arg1 == (*procs)[i].Id
 //@   requires procs != nil && GlobalFIDs.list != nil
 //@   requires forall(k, 0, len(*procs), (*procs)[k].Stdout != nil && (*procs)[k].Stderr != nil)
 //@   ensures imp(len(old(*procs)) == 0, result == 1)
@@ -157,7 +161,9 @@ package lang
 // try: only the last process of each pipeline is waited for and checked (a process whose successor
 // is a method is a pipeline member: it is started and the scan moves on). T1..T4 as for trypipe;
 // T1 is stated for pipeline heads (a method is never a `||` alternative).
-//@ func runModeTry [C05 C19]
+//@ func runModeTry [C05 C19 C28]
+// (C28) a command skipped by the scheduler gives back its OWN id
+//@   at call (*funcID).Deregister#* assert arg1 == (*procs)[i].Id
 //@   requires procs != nil && GlobalFIDs.list != nil
 //@   requires forall(k, 0, len(*procs), (*procs)[k].Stdout != nil && (*procs)[k].Stderr != nil)
 //@   ensures imp(len(old(*procs)) == 0, result == 1)
@@ -559,3 +565,14 @@ package lang
 //@ func itoIndexMap [C16]
 //@   check none
 //@   loop 2 invariant 0 <= iString && forall(j, 0, iString, j <= 3 && !has(v, unbox(any($spelling(j, params[i])), K)))
+
+// ---- C28 (release half): a finished process always gives its id back ------------------------------------
+// deregisterProcess always starts the releasing goroutine - for background processes too - and that
+// goroutine always deregisters the process's own id.
+//@ func deregisterProcess [C28]
+//@   check none
+//@   ensures called("go:deregisterProcess$1")
+//@ func deregisterProcess$1 [C28]
+//@   check none
+//@   at call (*funcID).Deregister#* assert arg1 == p.Id
+//@   ensures called("(*funcID).Deregister")
